@@ -181,9 +181,85 @@ func genC18(t *rapid.T) c18Case {
 	return c
 }
 
+// c18SelfCase: self-contained schemas (their `$ref`s point into their own `definitions`) expanded one after the
+// other with ExpandSchema(schema, nil, cache) on one caller-supplied cache: each is its own root, the names of
+// the definitions are the same in all of them, the content is not.
+type c18SelfCase struct {
+	Schemas []string `json:"schemas"`
+}
+
+func genC18Self(t *rapid.T) c18SelfCase {
+	var c c18SelfCase
+	names := []string{"a", "b", "c", "A", "d e"}
+	nd := 1 + gen.Uniform(t, "selfdefs", 4)
+	for i, n := 0, 2+gen.Uniform(t, "selfschemas", 2); i < n; i++ {
+		lbl := func(k string) string { return fmt.Sprintf("s%d-%s", i, k) }
+		defs := map[string]any{}
+		for j := 0; j < nd; j++ {
+			d := map[string]any{"title": lbl("def-" + names[j])}
+			if j+1 < nd && rapid.Bool().Draw(t, "selfchain") {
+				// acyclic by construction: a definition refers to later ones only
+				d["properties"] = map[string]any{"next": map[string]any{"$ref": gen.FragmentOf("/definitions/" + names[j+1+gen.Uniform(t, "selfnext", nd-j-1)])}}
+			}
+			defs[names[j]] = d
+		}
+		sch := map[string]any{"title": lbl("root"), "definitions": defs, "properties": map[string]any{}}
+		for j, m := 0, 1+gen.Uniform(t, "selfprops", 3); j < m; j++ {
+			sch["properties"].(map[string]any)[fmt.Sprintf("p%d", j)] = map[string]any{"$ref": gen.FragmentOf("/definitions/" + names[gen.Uniform(t, "selftarget", nd)])}
+		}
+		c.Schemas = append(c.Schemas, string(mustJSON(sch)))
+	}
+	return c
+}
+
+func oracleC18Self(c c18SelfCase) *vstat.Failure {
+	f := &vstat.Failure{}
+	cache := newLogCache()
+	expand := func(txt string, cache spec.ResolutionCache) (out []byte, err error, panicked string) {
+		defer func() {
+			if r := recover(); r != nil {
+				panicked = fmt.Sprint(r)
+			}
+		}()
+		var s spec.Schema
+		if e := json.Unmarshal([]byte(txt), &s); e != nil {
+			return nil, nil, "harness: " + e.Error()
+		}
+		err = spec.ExpandSchema(&s, nil, cache)
+		out, _ = json.Marshal(&s)
+		return
+	}
+	for i, txt := range c.Schemas {
+		where := fmt.Sprintf("self-rooted schema %d of %d", i, len(c.Schemas))
+		want, werr, wp := expand(txt, nil)
+		got, gerr, gp := expand(txt, cache)
+		switch {
+		case wp != "" || gp != "":
+			f.Add("PANIC", where, "%s %s", wp, gp)
+		case (werr == nil) != (gerr == nil):
+			f.Add("CACHE-CHANGES-RESULT", where, "ExpandSchema(schema, nil, nil): err=%v; with the cache that served the earlier schemas: err=%v", werr, gerr)
+		case werr == nil && !bytes.Equal(want, got):
+			f.Add("CACHE-CHANGES-RESULT", where, "ExpandSchema(schema, nil, nil) gives %s; with the cache that served the earlier schemas %s", clip(want), clip(got))
+		}
+		if !f.Empty() {
+			break
+		}
+	}
+	return f
+}
+
 func TestC18(t *testing.T) {
 	r := rec("C18")
 	rapid.Check(t, func(t *rapid.T) {
+		if gen.Pct(t, "selfrooted", 12) {
+			sc := genC18Self(t)
+			fs := oracleC18Self(sc)
+			r.Eval()
+			r.Label("self-rooted schemas sharing one cache")
+			r.NonTrivial(mustJSON(sc), sc)
+			verdict(t, "C18", "selfrooted", sc, fs)
+			return
+		}
 		c := genC18(t)
 		// the root-based entry points with a cache, on their own domain
 		if gen.Pct(t, "rootbased", 35) {
@@ -227,6 +303,13 @@ func TestC18(t *testing.T) {
 
 func TestReplayC18(t *testing.T) {
 	runReplays(t, "C18", func(variant string, raw json.RawMessage) *vstat.Failure {
+		if variant == "selfrooted" {
+			var sc c18SelfCase
+			if err := json.Unmarshal(raw, &sc); err != nil {
+				return &vstat.Failure{Atoms: []vstat.Atom{{Kind: "HARNESS", Detail: err.Error()}}}
+			}
+			return oracleC18Self(sc)
+		}
 		var c c18Case
 		if err := json.Unmarshal(raw, &c); err != nil {
 			return &vstat.Failure{Atoms: []vstat.Atom{{Kind: "HARNESS", Detail: err.Error()}}}
